@@ -507,4 +507,47 @@ def Step.lateRetarget (s : State) : Step → Bool
                         | none => false)
   | _ => false
 
+/-- The pool only grows, names stay, and the built value of every existing array stays. -/
+def PoolStable (s s' : State) : Prop :=
+  s.heap.length ≤ s'.heap.length ∧ (∀ n, n < s.heap.length → denote s'.heap n = denote s.heap n) ∧
+  (∀ (i : Nat) (a : Arr), s.arrs[i]? = some a → ∃ a' : Arr, s'.arrs[i]? = some a' ∧ a'.name = a.name)
+
+
+/-- Facts that every reachable state has, whatever the history. -/
+structure Basic (s : State) : Prop where
+  heap : HeapWF s.heap
+  arrName : ∀ a ∈ s.arrs, a.name < s.heap.length
+  opsNoExt : ∀ o ∈ s.heap, o.prim = true → ∀ k, o.wloc ≠ .ext k
+  nodesNoExt : ∀ a ∈ s.arrs, ∀ nd ∈ a.dag, nd.lazy = true → ∀ k, nd.target ≠ .ext k
+  extBound : ∀ k v, s.store (.ext k) = some v → k < s.heap.length
+
+
+/-- A fusion size policy that never refuses (the theorems hold for every policy). -/
+def softAll : List OpObj → List XOp → Nat → Bool := fun _ _ _ => true
+
+/-! ### what the property demands of every call of a history -/
+
+/-- One call behaves as C10 demands:
+  * nothing that is stored anywhere (source data, earlier store targets, intermediates) is modified;
+  * `compute` returns exactly the values the arrays were *built* to have (`denote` never looks at the
+    mutable parts of the state);
+  * an eager `store`/`to_zarr` does not fail. -/
+def GoodStep (soft : List OpObj → List XOp → Nat → Bool) (s : State) (st : Step) : Prop :=
+  (∀ l v, s.store l = some v → (s.step soft st).1.store l = some v) ∧
+  (match st with
+   | .compute idxs _ _ =>
+     ∀ as, mapOpt (fun i => s.arrs[i]?) idxs = some as → idxs ≠ [] →
+       ∃ vs, (s.step soft st).2 = .values vs ∧ mapOpt (fun a => denote s.heap a.name) as = some vs
+   | .store _ _ _ => (s.step soft st).2 ≠ .failed
+   | _ => True)
+
+def AllGood (soft : List OpObj → List XOp → Nat → Bool) : State → List Step → Prop
+  | _, [] => True
+  | s, st :: rest => GoodStep soft s st ∧ AllGood soft (s.step soft st).1 rest
+
+/-- No call of the history is a late re-targeting (decidable, evaluated along the run). -/
+def NoLate (soft : List OpObj → List XOp → Nat → Bool) : State → List Step → Bool
+  | _, [] => true
+  | s, st :: rest => !(st.lateRetarget s) && NoLate soft (s.step soft st).1 rest
+
 end Cubed.History
